@@ -113,6 +113,8 @@ def monitorLease (sc : LScn) (entries : List String) : List (String × String) :
         if f.getD 5 "" == "ok" then m := m.upd i fun s => { s with shared := v }
       else if a == "S" then
         let res := f.getD 4 ""
+        -- v1: only in the order Provision, Start, Stop - a resource that has been stopped never starts (again)
+        if res == "ok" && sc.gen == 1 && (ist i).stopAsked then m := m.add "C17" "v1-start-succeeds-after-stop"
         if res == "ok" then
           if (ist i).startedOk > 0 then m := m.add "C17" "start-succeeds-twice"
           m := m.upd i fun s => { s with started := true, startedOk := s.startedOk + 1 }
